@@ -40,7 +40,7 @@ def gen_program(rng, tier, force=None):
     )
     # the attribute-rich procedure: prefix x BIND(C, name=…) x function/result clause
     att = dict(prefix=rng.choice(['', '', 'pure', 'elemental', 'recursive', 'pure']), bind=rng.random() < 0.6,
-               func=rng.random() < 0.5, result=rng.random() < 0.6, doc=rng.randint(0, 1))
+               func=rng.random() < 0.5, result=rng.random() < 0.6, doc=rng.randint(0, 2))
     if att['prefix'] == 'elemental':
         att['bind'] = False      # an elemental procedure cannot have a language binding (fparser rejects it)
     if force:
@@ -57,9 +57,8 @@ def gen_program(rng, tier, force=None):
                 '    w = w + dg\n  end subroutine ext\nend module d_mod\n')
     ind = '  ' if f['module'] else ''
     def doc(k, ind_):
-        # one line only: two adjacent comment lines form a CommentBlock, whose inner Comment objects clone() shares (known class
-        # clone-shares-commentblock-comments; the heap model has no cell field for them, so such inputs stay out of the correspondence)
-        return [f'{ind_}! documentation of {k}'] if f['doc'] else []
+        # two adjacent comment lines form a CommentBlock (its inner Comment objects are exported as children of the block)
+        return [f'{ind_}! documentation line {j} of {k}' for j in range(rng.randint(1, 2))] if f['doc'] else []
 
     if f['module']:
         L += ['module m_mod'] + doc('m_mod', '  ')
@@ -86,6 +85,8 @@ def gen_program(rng, tier, force=None):
               '  end do']
         if f['assoc']:
             R += ['  associate(y => x(1))', f'    y = y + {loc[-1]}', '  end associate']
+        if f['doc']:
+            R += [f'  ! block comment one in {name}', f'  ! block comment two in {name}']
         if callee:
             R += [f'  call {callee}(x, n)']
         if f['defs']:
@@ -174,6 +175,9 @@ def split_children(node):
             syms.extend(r.retrieve(c))
     for c in node.children:
         rec(c)
+    if isinstance(node, irn.CommentBlock):
+        # not traversable for visitors, but part of the node: every rebuild of the block rebuilds its comments (CommentBlock._rebuild)
+        kids.extend(node.comments)
     return kids, syms
 
 
@@ -617,24 +621,7 @@ def sweep_nodes(u, cap=3):
 
 K_TYPEDEF = 'clone-shares-typedef'
 K_REREG = 'clone-reregisters-in-parent'
-K_CBLOCK = 'clone-shares-commentblock-comments'
-
-
-def commentblock_comments(u):
-    """ids of the Comment objects held by the CommentBlock nodes of the unit tree (docstring, spec, body, members):
-    `CommentBlock._traversable` is empty, so the Transformer rebuilds the block but keeps these very objects"""
-    ids = set()
-
-    def rec(n):
-        if isinstance(n, irn.CommentBlock):
-            ids.update(id(c) for c in n.comments)
-        for k in split_children(n)[0]:
-            rec(k)
-    for sec in sections(u):
-        rec(sec)
-    for mu in members(u):
-        ids.update(commentblock_comments(mu))
-    return ids
+# clone-shares-commentblock-comments is repaired in /repo (CommentBlock._rebuild rebuilds the inner comments): no longer a known class
 
 
 def refers_to_itself(u):
@@ -750,7 +737,7 @@ class C17(Prop):
     rule = ('generated Fortran units (module with optional derived type / module variables / imports from a definitions module / two '
             'routines calling each other, routines with member procedures and ASSOCIATE blocks, or a bare subroutine); the target '
             '(module, contained routine, member) is cloned and 0-5 random ops (rename, retype, body replacement, variables +=, '
-            'scoped-node table update, in-place comment edit, on the unit or a member) hit either copy; units carry one-line docstrings and a '
+            'scoped-node table update, in-place comment edit, on the unit or a member) hit either copy; units carry one- or two-line docstrings (CommentBlock) and comment blocks in bodies, and a '
             'procedure with prefix x BIND(C) x result clause; the oracle also clones with an override per constructor attribute and edits '
             'nodes of every section in place; non-trivial = at least one op; distinct = feature '
             'vector, target and op list')
@@ -758,12 +745,11 @@ class C17(Prop):
                     'pymbolic init args; not weakrefs)', 'Loki FP frontend builds the objects']
     assumptions = ['names are compared lower-cased without dimensions', 'type codes identify SymbolAttributes by repr (crc32)',
                    'Interface bodies / program units nested anywhere but in `contains` are not generated',
-                   'CommentBlock nodes (adjacent comment lines) are not generated: their inner comments are shared by clone (proposed class '
-                   'clone-shares-commentblock-comments) and the heap model has no field for them']
+                   'the Comment objects of a CommentBlock are exported as children of the block (visitors do not traverse them)']
     extra_obligations = ['heap-walker sharing set = model reach intersection']
 
     def classes(self):
-        return [K_TYPEDEF, K_REREG, K_CBLOCK]
+        return [K_TYPEDEF, K_REREG]
 
     def canon_model(self, resp):
         return resp
@@ -834,11 +820,6 @@ def oracle(req):
     if sh:
         # the known class covers exactly what hangs off the original's TypeDef nodes
         tdr = typedef_reach(o, r.env)
-        cbc = commentblock_comments(o)
-        inblock = [x for x in sh if id(x) in cbc and id(x) not in tdr]
-        if inblock:
-            fails.append(Failure('Comment objects of a CommentBlock shared by clone and original: %d' % len(inblock), K_CBLOCK))
-        sh = [x for x in sh if id(x) not in cbc or id(x) in tdr]
         outside = [x for x in sh if id(x) not in tdr]
         lbl = lambda xs: ', '.join(sorted(walker_label(x) + (':' + x.name if hasattr(x, 'name') and isinstance(x.name, str) else '') for x in xs))
         if outside:
